@@ -413,7 +413,7 @@ RULES = {
 }
 
 
-DOTALL = ("inner_macro_def", "mismatch_debug", "offered_let")
+DOTALL = ["inner_macro_def", "mismatch_debug", "offered_let"]
 
 
 def make_rewriter(rel, plan):
@@ -510,6 +510,22 @@ def load_targets():
         except ValueError as e:
             raise ExtractError("x_fn: %s: %s" % (path, e))
         for d in (data if isinstance(data, list) else [data]):
+            d = dict(d)
+            # (round 9, b04, additive) a target file may bring its own normalisation rules:
+            #   "rules": {name: [regex, replacement, why, count?, "dotall"?]}  (a name already defined differently is an error)
+            #   "normalise": {"Impl::fn": [rule names]}  (JSON has no tuple keys)
+            for rn, rv in (d.pop("rules", None) or {}).items():
+                rv = list(rv)
+                dot = "dotall" in rv[3:]
+                rv = [x for x in rv if x != "dotall"]
+                if len(rv) > 3 and rv[3] == 0: rv[3] = None          # 0 = "at least once"
+                if rn in RULES and tuple(RULES[rn]) != tuple(rv):
+                    raise ExtractError("x_fn: %s: normalisation rule %r is already defined" % (path, rn))
+                RULES[rn] = tuple(rv)
+                if dot and rn not in DOTALL: DOTALL.append(rn)
+            if isinstance(d.get("normalise"), dict):
+                d["normalise"] = {(tuple(k.split("::", 1)) if "::" in k else ("", k)): v
+                                  for k, v in d["normalise"].items() if not isinstance(k, tuple)}
             add(d, os.path.basename(path))
     return tgs
 
